@@ -16,7 +16,7 @@ import (
 // ---------------------------------------------------------------------------------------------
 // Exclusions of open findings. The exclusion tag of a C09 call finding IS the predicate:
 //
-//	<pkg:function>(<alt>;<alt>;...)       alt  = spec,spec,...   one spec per argument position
+//	<pkg:function>[+<pkg:function>...](<alt>;<alt>;...)       alt  = spec,spec,...   one spec per argument position
 //	spec = *  |  name|name|...  |  !name|name|...  |  ...  (last position only: any further arguments)
 //
 // where a name is the name of a pool entry (the argument "type") or s / i / c for a literal string /
@@ -132,7 +132,9 @@ func loadPatterns() {
 				continue
 			}
 			if p, ok := parsePattern(fd.Exclusion); ok {
-				patternsByFn[p.fn] = append(patternsByFn[p.fn], p)
+				for _, fn := range strings.Split(p.fn, "+") {
+					patternsByFn[fn] = append(patternsByFn[fn], p)
+				}
 			}
 		}
 	}
